@@ -11,6 +11,10 @@ import (
 )
 
 func main() {
+	if len(os.Args) >= 3 && os.Args[1] == "probe" {
+		cmdProbe(os.Args[2])
+		return
+	}
 	if len(os.Args) >= 2 && os.Args[1] == "unescape" {
 		cmdUnescape()
 		return
@@ -27,7 +31,27 @@ func main() {
 	case "c08":
 		cmdC08(seed, tier, outdir)
 	case "match":
-		cmdMatch(seed, tier, outdir)
+		fam := "generic"
+		if len(os.Args) > 5 {
+			fam = os.Args[5]
+		}
+		cmdMatch(seed, tier, outdir, fam)
+	case "c05":
+		cmdC05(seed, tier, outdir)
+	case "c06":
+		cmdC06(seed, tier, outdir)
+	case "c11":
+		cmdC11(seed, tier, outdir)
+	case "c04":
+		cmdC04(seed, tier, outdir)
+	case "c01":
+		cmdC01(seed, tier, outdir)
+	case "c0203":
+		cmdC0203(seed, tier, outdir)
+	case "c07":
+		cmdC07(seed, tier, outdir)
+	case "c10":
+		cmdC10(seed, tier, outdir)
 	default:
 		fmt.Fprintln(os.Stderr, "unknown command", os.Args[1])
 		os.Exit(2)
